@@ -41,6 +41,9 @@ pub enum SocketType {
   Pull,
 }
 
+/// Largest number of frames one `send_multipart()` call may carry.
+pub const MAX_SEND_FRAMES: usize = 253;
+
 /// The public handle for interacting with an rzmq socket.
 /// This struct provides the user-facing API for socket operations.
 /// Handles are cloneable (`Arc`-based), allowing them to be shared across tasks.
@@ -131,6 +134,15 @@ impl Socket {
   ///
   /// The `frames` Vec should have MsgFlags::MORE set correctly on all but the last Msg.
   pub async fn send_multipart(&self, frames: Vec<Msg>) -> Result<(), ZmqError> {
+    // A FrameBatch holds at most 255 frames and the socket patterns may add an identity and a
+    // delimiter frame; refuse longer messages here instead of panicking further down.
+    if frames.len() > MAX_SEND_FRAMES {
+      return Err(ZmqError::InvalidMessage(format!(
+        "multipart message has {} frames; at most {} are supported",
+        frames.len(),
+        MAX_SEND_FRAMES
+      )));
+    }
     self.inner.send_multipart(FrameBatch::from(frames)).await
   }
 
